@@ -120,14 +120,14 @@ class PrivateKey:
             used to create a key from raw bytes
         """
 
-        if not secret_exponent and not wif and not b:
+        if secret_exponent is None and wif is None and b is None:
             self.key = SigningKey.generate(curve=SECP256k1)
         else:
-            if wif:
+            if wif is not None:
                 self._from_wif(wif)
-            elif b:
+            elif b is not None:
                 self._from_bytes(b)
-            elif secret_exponent:
+            elif secret_exponent is not None:
                 self.key = SigningKey.from_secret_exponent(
                     secret_exponent, curve=SECP256k1
                 )
